@@ -250,6 +250,64 @@ fn matrices<B: Fld, E: FieldElement<BaseField = B>, const N: usize>(rng: &mut Rn
     st.evals += 5;
 }
 
+
+/// StarkDomain built from a computation description (the way the prover builds it): the three nested domains
+/// (trace, constraint evaluation, LDE), their generators, offset, blowups and the x-coordinate look-ups
+fn stark_domain_of_air<B: Fld>(rng: &mut Rng, st: &mut State) {
+    use std::sync::Arc;
+    use wfv::genair::{assertion_values, gen_trace, GAir, GPub, Limits, Shape, TraceKind};
+    use winter_air::{Air, FieldExtension, ProofOptions};
+    let lim = Limits { max_log_n: 8, max_width: 4, max_blowup: *rng.pick(&[2, 4, 8, 16]), allow_aux: false };
+    let shape = Arc::new(Shape::random(rng, &lim));
+    let n = shape.n();
+    // LDE blowup = constraint-evaluation blowup x {1, 2, 4, 8}
+    let blowup = (shape.min_blowup() << rng.usize(4)).min(128);
+    let options = ProofOptions::new(1, blowup, 0, FieldExtension::None, 2, 0);
+    let cols = gen_trace::<B>(&shape, rng, TraceKind::Random);
+    let values = assertion_values::<B>(&shape, &cols);
+    let air = GAir::<B>::new(shape.trace_info(), GPub { shape: shape.clone(), values }, options);
+    let dom = StarkDomain::new(&air);
+    let t = B::NAME;
+    let bad = |what: &str, st: &mut State| st.violation(format!("{t}:StarkDomain::new:{what}"), J::obj(vec![("shape", shape.json()), ("lde_blowup", J::i(blowup)), ("check", J::s(what))]));
+    let ce = dom.ce_domain_size();
+    if dom.trace_length() != n || dom.lde_domain_size() != n * blowup || dom.trace_to_lde_blowup() != blowup || dom.offset() != B::GENERATOR {
+        bad("sizes", st);
+    }
+    if !ce.is_power_of_two() || ce < n || ce > n * blowup || ce != air.ce_domain_size() || dom.trace_to_ce_blowup() * n != ce || dom.ce_to_lde_blowup() * ce != n * blowup {
+        bad("constraint-evaluation-domain", st);
+    }
+    let g = dom.ce_domain_generator();
+    if g != B::get_root_of_unity(ce.ilog2()) || g.exp_vartime(B::pi(ce as u128)) != B::ONE || (ce > 1 && g.exp_vartime(B::pi(ce as u128 / 2)) != -B::ONE) {
+        bad("ce_domain_generator", st);
+    }
+    if dom.trace_twiddles() != &fft::get_twiddles::<B>(n)[..] {
+        bad("trace_twiddles", st);
+    }
+    // x-coordinates: every step of the constraint evaluation domain; powers through the table look-up
+    let mut x = B::GENERATOR;
+    for step in 0..ce {
+        if dom.get_ce_x_at(step) != x {
+            bad("get_ce_x_at", st);
+            break;
+        }
+        if step % 7 == 0 || step + 1 == ce {
+            for power in [1u64, 2, 3, n as u64, (n / 2) as u64, ce as u64, (ce as u64) + 1, rng.u32() as u64] {
+                let off = B::GENERATOR.exp_vartime(B::pi(power as u128));
+                if dom.get_ce_x_power_at(step, power, off) != x.exp_vartime(B::pi(power as u128)) {
+                    bad("get_ce_x_power_at", st);
+                    break;
+                }
+            }
+        }
+        x *= g;
+    }
+    st.evals += 1;
+    st.count(&format!("{t}.stark_domain_of_air"));
+    if ce < n * blowup {
+        st.count(&format!("{t}.stark_domain_of_air.ce_smaller_than_lde"));
+    }
+}
+
 fn drive<B: Fld, E: FieldElement<BaseField = B>>(run: &Run, reps: u64, max_log: u32) {
     let t = type_name::<B, E>();
     let limit = if run.quick() { 1 << 18 } else { 1 << 21 };
@@ -285,12 +343,20 @@ fn main() {
     drive::<B64, B64>(&run, reps, max_log);
     drive::<B62, B62>(&run, reps, max_log);
     drive::<B128, B128>(&run, reps, max_log);
+    run.par("stark-domain", reps * 20, |i, rng, st| {
+        match i % 3 {
+            0 => stark_domain_of_air::<B64>(rng, st),
+            1 => stark_domain_of_air::<B62>(rng, st),
+            _ => stark_domain_of_air::<B128>(rng, st),
+        }
+        st.case(wfv::fnv(format!("sd{i}").as_bytes()), true);
+    });
     drive::<B64, QuadExtension<B64>>(&run, reps, max_log);
     drive::<B64, CubeExtension<B64>>(&run, reps, max_log);
     drive::<B62, QuadExtension<B62>>(&run, reps, max_log);
     drive::<B62, CubeExtension<B62>>(&run, reps, max_log);
     drive::<B128, QuadExtension<B128>>(&run, reps, max_log);
-    let mut require = vec![("permute_index.sizes".to_string(), 1)];
+    let mut require = vec![("permute_index.sizes".to_string(), 1), ("f64.stark_domain_of_air".to_string(), 20), ("f64.stark_domain_of_air.ce_smaller_than_lde".to_string(), 5)];
     for t in ["f64", "f62", "f128", "f64^2", "f64^3", "f62^2", "f62^3", "f128^2"] {
         require.push((format!("{t}.size2^1"), 1));
         require.push((format!("{t}.size2^10"), 1));
@@ -299,7 +365,7 @@ fn main() {
         require.push((format!("{t}.matrix.wide"), 1));
     }
     run.finish(Finish {
-        rule: "per case one size 2^k (k cycles over 1..max) and polynomial (random / low degree / monomial): evaluate_poly, serial_fft, interpolate_poly, evaluate_poly_with_offset (offset 1/generator/random, blowup 1..128), interpolate_poly_with_offset, infer_degree, twiddles vs direct evaluation at explicitly computed points (all points while n*deg <= limit, boundary+sampled points above); matrices of {1,2,3,7,8,9,15,16,17,31,64,85,254,255} columns, segment widths N in {8,4,1}: interpolate_columns, evaluate_polys(_over)<N>, evaluate_columns_over, evaluate_columns_at, StarkDomain accessors; row-major vs column-major LDE compared on every cell. distinct = distinct (type, size/width, generated polynomial) case".into(),
+        rule: "per case one size 2^k (k cycles over 1..max) and polynomial (random / low degree / monomial): evaluate_poly, serial_fft, interpolate_poly, evaluate_poly_with_offset (offset 1/generator/random, blowup 1..128), interpolate_poly_with_offset, infer_degree, twiddles vs direct evaluation at explicitly computed points (all points while n*deg <= limit, boundary+sampled points above); matrices of {1,2,3,7,8,9,15,16,17,31,64,85,254,255} columns, segment widths N in {8,4,1}: interpolate_columns, evaluate_polys(_over)<N>, evaluate_columns_over, evaluate_columns_at, StarkDomain accessors; StarkDomain::new(air) for random computation descriptions with LDE blowup = 1..8 x constraint-evaluation blowup (sizes, generators, twiddles, get_ce_x_at on every step, get_ce_x_power_at for small / n / n/2 / random powers); row-major vs column-major LDE compared on every cell. distinct = distinct (type, size/width, generated polynomial) case".into(),
         assumptions: vec![
             "reference: sum c_i x^i with explicit powers using the library's field operations (monitored by C07/C08); domain points built by repeated multiplication from get_root_of_unity (checked in C07)".into(),
             "for sizes where all-point comparison exceeds the budget, boundary points + random points are compared and the inverse transform must reproduce the coefficients exactly".into(),
